@@ -250,15 +250,18 @@ Proof.
   - cbn [app forallb follow_ok]. rewrite E. auto.
 Qed.
 
-(* the first character decides nothing else than an error *)
+(* a character that begins no token and is not whitespace: the error points into it *)
+Definition no_token_start (r : Z) : Prop :=
+  is_alpha_Z r = false /\ ~ (48 <= r <= 57) /\ r <> eof /\
+  Forall (fun c => r <> c) [46; 42; 44; 58; 123; 125; 93; 40; 41; 64; 45; 91; 34; 39; 96; 124; 60; 62; 33; 61; 38; 32; 9; 10; 13].
+
 Lemma step_error r a1 f a acc :
-  nextS a = (r, a1) -> -1 <= r <= 1114111 ->
-  is_alpha_Z r = false -> r <> 46 -> r <> 42 -> r <> 44 -> r <> 58 -> r <> 123 -> r <> 125 -> r <> 93 -> r <> 40 -> r <> 41 -> r <> 64 ->
-  r <> 45 -> ~ (48 <= r <= 57) -> r <> 91 -> r <> 34 -> r <> 39 -> r <> 96 -> r <> 124 -> r <> 60 -> r <> 62 -> r <> 33 -> r <> 61 -> r <> 38 ->
-  r <> eof -> r <> 32 -> r <> 9 -> r <> 10 -> r <> 13 ->
-  exists err, tokenize_loopS (S f) a acc = Err err.
+  nextS a = (r, a1) -> -1 <= r <= 1114111 -> no_token_start r ->
+  tokenize_loopS (S f) a acc = Err (ESyntax (ap a1 - 1)).
 Proof.
-  intros Hn Hr Ha. intros. cbn [tokenize_loopS]. rewrite Hn. rewrite ident_start_ok by exact Hr. rewrite Ha.
+  intros Hn Hr [Ha [Hd [He Hall]]].
+  repeat (match goal with H : Forall _ (_ :: _) |- _ => inversion H; clear H; subst end).
+  cbn [tokenize_loopS]. rewrite Hn. rewrite ident_start_ok by exact Hr. rewrite Ha.
   rewrite basic_tokens_ok.
   assert (r =? 46 = false) as -> by lia. assert (r =? 42 = false) as -> by lia. assert (r =? 44 = false) as -> by lia.
   assert (r =? 58 = false) as -> by lia. assert (r =? 123 = false) as -> by lia. assert (r =? 125 = false) as -> by lia.
@@ -273,13 +276,23 @@ Proof.
   assert (is_white r = false) as ->.
   { rewrite white_space_ok. assert (r =? 32 = false) as -> by lia. assert (r =? 9 = false) as -> by lia.
     assert (r =? 10 = false) as -> by lia. assert (r =? 13 = false) as -> by lia. reflexivity. }
-  eexists. reflexivity.
+  reflexivity.
 Qed.
+
+(* why the lexer stops at the remaining input s (at position p), and the error it reports:
+   a character that begins no token — the offset is that of the character's last byte; a
+   quotation mark, apostrophe or backtick that is never closed — the offset is the end of the
+   input; a quoted identifier whose body is not a JSON string — a non-syntax error *)
+Definition stuck (p : Z) (s : bytes) (er : err) : Prop :=
+  (exists r k s', stepS s = (r, k, s') /\ no_token_start r /\ er = ESyntax (p + k - 1)) \/
+  (exists s0, (s = 34%N :: s0 /\ scan_untilB 34 s0 = None \/ s = 39%N :: s0 /\ raw_scanB s0 = None \/
+               s = 96%N :: s0 /\ scan_untilB 96 s0 = None) /\ er = ESyntax (p + zlen s)) \/
+  (exists body rest, s = 34%N :: body ++ 34%N :: rest /\ clean 34 body = true /\ json_unquote body = None /\ er = ECompileOther).
 
 Definition StepOK (p : Z) (s : bytes) : Prop :=
   (exists c s', s = c :: s' /\ wsc c) \/
   (exists ty v text rest, s = text ++ rest /\ tok_text ty v text /\ follow_ok ty rest = true) \/
-  (forall f w acc, exists err, tokenize_loopS (S f) (AS p s w) acc = Err err).
+  (exists err, stuck p s err /\ forall f w acc, tokenize_loopS (S f) (AS p s w) acc = Err err).
 
 Ltac tokB ty v text rest := right; left; exists ty, v, text, rest.
 Ltac fixedB ty text rest := tokB ty text text rest; split; [reflexivity | split; [apply TTfixed; reflexivity | try reflexivity]].
@@ -302,9 +315,12 @@ Proof.
   intros Hp. unfold StepOK.
   destruct (N.ltb b 128) eqn:Hb.
   2:{ (* a byte >= 128 begins a rune >= 128 (or is invalid): no token starts with it *)
-      right; right. intros f w acc. pose proof (stepS_first b s0) as F. pose proof (stepS_range (b :: s0)) as R.
+      right; right. pose proof (stepS_first b s0) as F. pose proof (stepS_range (b :: s0)) as R.
       destruct (stepS (b :: s0)) as [[r k] s'] eqn:Es. destruct F as [[Hb' _]|[_ Hr]]; [congruence|].
-      apply (step_error r (AS (p + k) s' k)); try (unfold eof; lia); try (unfold is_alpha_Z; lia).
+      assert (Hnt : no_token_start r).
+      { split; [unfold is_alpha_Z; lia|]. split; [lia|]. split; [unfold eof; lia|]. repeat constructor; lia. }
+      exists (ESyntax (p + k - 1)). split; [left; exists r, k, s'; auto|]. intros f w acc.
+      rewrite (step_error r (AS (p + k) s' k) f _ acc); [reflexivity | | exact R | exact Hnt].
       unfold nextS. cbn [asuf ap]. rewrite Es. reflexivity. }
   (* whitespace *)
   destruct (N.eqb_spec b 32) as [->|N32]; [left; eexists _, _; split; [reflexivity | left; reflexivity]|].
@@ -346,30 +362,37 @@ Proof.
       destruct (json_unquote body) as [v|] eqn:Eu.
       + tokB tQuotedIdentifier v (34%N :: body ++ [34%N]) rest. split; [cbn [app]; rewrite <- app_assoc; reflexivity|].
         split; [apply TTquoted; assumption | destruct rest; reflexivity].
-      + right; right. intros f w acc. first_char 34%N. cbn -[tokenize_loopS consumeQuotedIdentifierS].
+      + right; right. exists ECompileOther. split; [right; right; exists body, rest; auto|]. intros f w acc.
+        first_char 34%N. cbn -[tokenize_loopS consumeQuotedIdentifierS].
         unfold consumeQuotedIdentifierS. change 34 with (Z.of_N 34).
         rewrite (consumeUntilS_clean 34 (p + 1) body rest 1) by (first [reflexivity | lia | exact Hc]).
-        cbn [bind]. rewrite Eu. eexists. reflexivity.
-    - right; right. intros f w acc. first_char 34%N. cbn -[tokenize_loopS consumeQuotedIdentifierS].
+        cbn [bind]. rewrite Eu. reflexivity.
+    - right; right. exists (ESyntax (p + zlen (34%N :: s0))). split; [right; left; exists s0; auto|]. intros f w acc.
+      first_char 34%N. cbn -[tokenize_loopS consumeQuotedIdentifierS].
       unfold consumeQuotedIdentifierS. rewrite (consumeUntilS_scan 34) by lia. change 34 with (Z.of_N 34).
-      rewrite (scan_until_bytes 34) by (first [reflexivity | lia]). rewrite Es. eexists. reflexivity. }
+      rewrite (scan_until_bytes 34) by (first [reflexivity | lia]). rewrite Es. cbn [bind].
+      replace (p + 1 + zlen s0) with (p + zlen (34%N :: s0)) by (unfold zlen; cbn [length]; lia). reflexivity. }
   (* raw strings *)
   destruct (N.eqb_spec b 39) as [->|N39].
   { destruct (raw_scanB s0) as [[v rest]|] eqn:Es.
     - destruct (raw_scanB_inv (length s0) s0 v rest (Nat.le_refl _) Es) as [body [-> [Hc ->]]].
       tokB tStringLiteral (raw_unescape body) (39%N :: body ++ [39%N]) rest. split; [cbn [app]; rewrite <- app_assoc; reflexivity|].
       split; [apply TTraw; assumption | destruct rest; reflexivity].
-    - right; right. intros f w acc. first_char 39%N. cbn -[tokenize_loopS consumeRawStringLiteralS].
-      rewrite consumeRawS_scan by lia. rewrite raw_scan_bytes by lia. rewrite Es. eexists. reflexivity. }
+    - right; right. exists (ESyntax (p + zlen (39%N :: s0))). split; [right; left; exists s0; auto|]. intros f w acc.
+      first_char 39%N. cbn -[tokenize_loopS consumeRawStringLiteralS].
+      rewrite consumeRawS_scan by lia. rewrite raw_scan_bytes by lia. rewrite Es. cbn [bind].
+      replace (p + 1 + zlen s0) with (p + zlen (39%N :: s0)) by (unfold zlen; cbn [length]; lia). reflexivity. }
   (* JSON literals *)
   destruct (N.eqb_spec b 96) as [->|N96].
   { destruct (scan_untilB 96 s0) as [[body rest]|] eqn:Es.
     - destruct (scan_untilB_inv 96 (length s0) s0 body rest (Nat.le_refl _) Es) as [-> Hc].
       tokB tJSONLiteral (replace2 92 96 96 body) (96%N :: body ++ [96%N]) rest. split; [cbn [app]; rewrite <- app_assoc; reflexivity|].
       split; [apply TTlit; assumption | destruct rest; reflexivity].
-    - right; right. intros f w acc. first_char 96%N. cbn -[tokenize_loopS consumeLiteralS].
+    - right; right. exists (ESyntax (p + zlen (96%N :: s0))). split; [right; left; exists s0; auto|]. intros f w acc.
+      first_char 96%N. cbn -[tokenize_loopS consumeLiteralS].
       unfold consumeLiteralS. rewrite (consumeUntilS_scan 96) by lia. change 96 with (Z.of_N 96).
-      rewrite (scan_until_bytes 96) by (first [reflexivity | lia]). rewrite Es. eexists. reflexivity. }
+      rewrite (scan_until_bytes 96) by (first [reflexivity | lia]). rewrite Es. cbn [bind].
+      replace (p + 1 + zlen s0) with (p + zlen (96%N :: s0)) by (unfold zlen; cbn [length]; lia). reflexivity. }
   (* operators of one or two characters *)
   destruct (N.eqb_spec b 124) as [->|N124].
   { destruct (two_char 124 124 s0 tPipe tOr) as [[rest [-> Hf]]|[rest [-> Hf]]];
@@ -391,17 +414,13 @@ Proof.
       [intros [|? ?]; reflexivity | intros [|? ?]; reflexivity | fixedB tEQ [61%N; 61%N] rest; exact Hf |].
     tokB tUnknown [61%N] [61%N] rest. split; [reflexivity | split; [apply TTunknown | exact Hf]]. }
   (* anything else *)
-  right; right. intros f w acc.
-  apply (step_error (Z.of_N b) (AS (p + 1) s0 1)).
-  - unfold nextS. cbn [asuf ap]. rewrite (stepS_ascii b s0 Hb). reflexivity.
-  - lia.
-  - rewrite is_alpha_Z_N. exact Halpha.
-  - lia. - lia. - lia. - lia. - lia. - lia. - lia. - lia. - lia. - lia.
-  - unfold is_digit in Hnum. lia.
-  - unfold is_digit in Hnum. lia.
-  - lia. - lia. - lia. - lia. - lia. - lia. - lia. - lia. - lia. - lia.
-  - unfold eof. lia.
-  - lia. - lia. - lia. - lia.
+  right; right.
+  assert (Hnt : no_token_start (Z.of_N b)).
+  { split; [rewrite is_alpha_Z_N; exact Halpha|]. split; [unfold is_digit in Hnum; lia|]. split; [unfold eof; lia|].
+    unfold is_digit in Hnum. repeat constructor; lia. }
+  exists (ESyntax (p + 1 - 1)). split; [left; exists (Z.of_N b), 1, s0; split; [apply stepS_ascii; exact Hb | auto]|]. intros f w acc.
+  rewrite (step_error (Z.of_N b) (AS (p + 1) s0 1) f _ acc); [reflexivity | | lia | exact Hnt].
+  unfold nextS. cbn [asuf ap]. rewrite (stepS_ascii b s0 Hb). reflexivity.
 Qed.
 
 Lemma lex_loop_sound : forall f s p w acc out, 0 <= p ->
@@ -424,7 +443,7 @@ Proof.
       * rewrite Ho. cbn [rev]. rewrite <- !app_assoc. cbn [app].
         replace (p' + zlen rest) with (p + zlen (b :: s0)) by (rewrite Hs; subst p'; unfold zlen; rewrite app_length; lia). reflexivity.
       * rewrite Hs. cbn [map]. unfold tv at 1. rewrite T1, T2. apply Lex_tok; assumption.
-    + destruct (Herr f w acc) as [err He]. rewrite He in H. discriminate.
+    + destruct Herr as [err [_ He]]. rewrite (He f w acc) in H. discriminate.
 Qed.
 
 Theorem lex_sound e ts : tokenize e = Ok ts ->
@@ -452,6 +471,75 @@ Proof.
     + destruct T.
     + destruct T.
   - intros [err He] l HL. destruct (lex_complete e l HL) as [out [Ho _]]. congruence.
+Qed.
+
+(* ---- where a lexical error is reported ---- *)
+(* LexTo s l r: s reads as the tokens l up to its remainder r *)
+Inductive LexTo : bytes -> list (tokType * bytes) -> bytes -> Prop :=
+| LexTo_stop s : LexTo s [] s
+| LexTo_ws c s l r : wsc c -> LexTo s l r -> LexTo (c :: s) l r
+| LexTo_tok ty v text s l r : tok_text ty v text -> follow_ok ty s = true -> LexTo s l r -> LexTo (text ++ s) ((ty, v) :: l) r.
+
+Lemma LexTo_split s l r : LexTo s l r -> exists pre, s = pre ++ r.
+Proof.
+  induction 1 as [s|c s l r _ _ [pre ->]|ty v text s l r _ _ _ [pre ->]].
+  - exists []. reflexivity.
+  - exists (c :: pre). reflexivity.
+  - exists (text ++ pre). rewrite app_assoc. reflexivity.
+Qed.
+
+Lemma LexTo_all s l : LexTo s l [] <-> Lex s l.
+Proof.
+  split.
+  - intros H. remember [] as r eqn:Er. induction H as [s|c s l r Hc _ IH|ty v text s l r Ht Hf _ IH]; subst.
+    + constructor.
+    + apply Lex_ws; auto.
+    + apply Lex_tok; auto.
+  - induction 1 as [|c s l Hc _ IH|ty v text s l Ht Hf _ IH]; [apply LexTo_stop | apply LexTo_ws; auto | apply LexTo_tok; auto].
+Qed.
+
+Lemma lex_loop_err : forall f s p w acc er, 0 <= p ->
+  tokenize_loopS f (AS p s w) acc = Err er ->
+  exists l r, LexTo s l r /\ r <> [] /\ stuck (p + zlen s - zlen r) r er.
+Proof.
+  induction f as [|f IH]; intros s p w acc er Hp H; [discriminate|].
+  destruct s as [|b s0]; [rewrite lex_eof in H; discriminate|].
+  destruct (step_cases b s0 p Hp) as [[c [s' [Hs Hc]]]|[[ty [v [text [rest [Hs [Ht Hfo]]]]]]|[er' [Hst He]]]].
+  - inversion Hs; subst c s'. rewrite (lex_space b _ _ _ _ _ Hc) in H.
+    destruct (IH s0 (p + 1) 1 acc er ltac:(lia) H) as [l [r [HL [Hr Hs']]]]. exists l, r. split; [apply LexTo_ws; assumption|]. split; [exact Hr|].
+    replace (p + zlen (b :: s0) - zlen r) with (p + 1 + zlen s0 - zlen r) by (unfold zlen; cbn [length]; lia). exact Hs'.
+  - rewrite Hs in H. destruct (lex_tok_text ty v text Ht rest f p w acc Hfo Hp) as [tok [p' [k [T1 [T2 [Hp' Hloop]]]]]].
+    rewrite Hloop in H.
+    destruct (IH rest p' k (tok :: acc) er ltac:(pose proof (Zle_0_nat (length text)); unfold zlen in *; lia) H) as [l [r [HL [Hr Hs']]]].
+    exists ((ty, v) :: l), r. split; [rewrite Hs; apply LexTo_tok; assumption|]. split; [exact Hr|].
+    replace (p + zlen (b :: s0) - zlen r) with (p' + zlen rest - zlen r) by (rewrite Hs; subst p'; unfold zlen; rewrite app_length; lia). exact Hs'.
+  - rewrite (He f w acc) in H. inversion H; subst er'. exists [], (b :: s0). split; [apply LexTo_stop|]. split; [discriminate|].
+    replace (p + zlen (b :: s0) - zlen (b :: s0)) with p by lia. exact Hst.
+Qed.
+
+(* an error of the lexer is reported where the reading stops: the text before the
+   remainder r reads as tokens, r is not empty, and the error says why r cannot be read on *)
+Theorem lex_error_located e er : tokenize e = Err er ->
+  exists l r, LexTo e l r /\ r <> [] /\ stuck (zlen e - zlen r) r er.
+Proof.
+  rewrite tokenize_view. unfold tokenizeS. intros H.
+  destruct (lex_loop_err _ e 0 0 [] er ltac:(lia) H) as [l [r [HL [Hr Hs]]]]. exists l, r. rewrite Z.add_0_l in Hs. auto.
+Qed.
+
+(* in particular the offset of a lexical syntax error lies in the character that cannot be
+   read (its last byte), or is the end of the input for a delimiter that is never closed *)
+Corollary lex_error_offset e o : tokenize e = Err (ESyntax o) ->
+  exists pre r, e = pre ++ r /\ r <> [] /\
+    ((exists k, o = zlen pre + k - 1 /\ 1 <= k <= zlen r /\ snd (fst (stepS r)) = k) \/ o = zlen e).
+Proof.
+  intros H. destruct (lex_error_located e _ H) as [l [r [HL [Hr Hst]]]]. destruct (LexTo_split _ _ _ HL) as [pre ->].
+  exists pre, r. split; [reflexivity|]. split; [exact Hr|].
+  replace (zlen (pre ++ r) - zlen r) with (zlen pre) in Hst by (unfold zlen; rewrite app_length; lia).
+  destruct Hst as [[ru [k [s' [Hstep [_ He]]]]]|[[s0 [_ He]]|[body [rest [_ [_ [_ He]]]]]]]; [|right|discriminate He].
+  - left. inversion He; subst o. exists k. rewrite Hstep. cbn [fst snd]. split; [reflexivity|]. split; [|reflexivity].
+    pose proof (stepS_split r Hr) as Sp. rewrite Hstep in Sp. destruct Sp as [Hk [_ [Hl _]]].
+    pose proof (Zle_0_nat (length s')). unfold zlen in *. lia.
+  - inversion He; subst o. unfold zlen. rewrite app_length. lia.
 Qed.
 
 (* the reading is unique *)
@@ -500,6 +588,22 @@ Proof.
   - sp Hw; repeat (match goal with |- (_ && _) = true => apply andb_true_iff; split end); try assumption; try (eapply Ho; eassumption); try (eapply Hr; eassumption); try (apply IH; assumption).
   - sp Hw; repeat (match goal with |- (_ && _) = true => apply andb_true_iff; split end); try assumption; try (eapply Ho; eassumption); try (eapply Hr; eassumption); try (apply IH; assumption).
   - sp Hw; repeat (match goal with |- (_ && _) = true => apply andb_true_iff; split end); try assumption; try (eapply Ho; eassumption); try (eapply Hr; eassumption); try (apply IH; assumption).
+Qed.
+
+(* a syntax error of the parser points at the start of one of the tokens (the end-of-input
+   token stands at the end of the text) *)
+Lemma parse_error_at_token (ts : list token) : wf_tokens ts ->
+  forall o, parse_tokens ts = Err (ESyntax o) -> exists t, In t ts /\ o = tpos t.
+Proof.
+  intros Hwf o H. pose proof (parse_tokens_total ts Hwf) as T. rewrite H in T. exact T.
+Qed.
+
+Lemma compile_error_located (e : bytes) o : parse e = Err (ESyntax o) ->
+  tokenize e = Err (ESyntax o) \/ exists ts t, tokenize e = Ok ts /\ In t ts /\ o = tpos t.
+Proof.
+  unfold parse. intros H. destruct (tokenize e) as [ts|er| |] eqn:Et; cbn [bind] in H; try discriminate.
+  - right. pose proof (tokenize_wf e ts Et) as Hwf. destruct (parse_error_at_token ts Hwf o H) as [t [Hin Ho]]. exists ts, t. auto.
+  - left. inversion H. reflexivity.
 Qed.
 
 (* ---- Compile from bytes ---- *)
